@@ -3,7 +3,7 @@
    .broken), snapNames (suffix filter, newest first), Load (first that reads back).
    The snapshot directory is a list of (file name, file contents).
    Model file: definitions only. *)
-Require Import Base.Bytes Wal.Crc32c Wal.Pb.
+Require Import Base.Bytes Wal.Crc32c Wal.CrcTab Wal.Pb.
 Local Open Scope N_scope.
 
 (* raftpb.SnapshotMetadata { conf_state = 1 (message); index = 2; term = 3 } and
@@ -28,7 +28,7 @@ Definition raftsnap_check (b : bytes) : pres unit :=
 (* Snapshotter.save: b = Marshal(snapshot); crc = crc32.Update(0, castagnoli, b);
    file = Marshal(snappb.Snapshot{Crc: crc, Data: b}) *)
 Definition snap_file_of (b : bytes) : bytes :=
-  snapfile_marshal (mksnapfile (crc_update 0 b) (Some b)).
+  snapfile_marshal (mksnapfile (crc_update_tab 0 b) (Some b)).
 
 Inductive snaperr :=
 | SnEmpty        (* ErrEmptySnapshot: empty file, empty data or zero crc *)
@@ -48,7 +48,7 @@ Definition snap_read (b : bytes) : sres :=
     | POk sf =>
       let d := match sf_data sf with Some d => d | None => [] end in
       if (blen d =? 0) || (sf_crc sf =? 0) then SnErr SnEmpty
-      else if negb (crc_update 0 d =? sf_crc sf) then SnErr SnCrc
+      else if negb (crc_update_tab 0 d =? sf_crc sf) then SnErr SnCrc
       else match raftsnap_check d with
            | PErr _ => SnErr SnInner
            | POk _ => SnOk d
